@@ -6,7 +6,8 @@ the repair of F48 (duplicate identifiers after mapping -> ValueError): accept / 
 Cases: seeded random ones plus structured ones — injective mappings, mappings colliding in the
 control identifiers, in the noise identifiers, with the default mapping of another entry, with the
 identifiers of the additional noise Hamiltonian, default mappings only, mappings with missing keys
-(KeyError), empty dicts, pulses whose own identifier arrays were overwritten with repetitions
+(ValueError since the repair of F50, a KeyError before), empty dicts, pulses whose own identifier
+arrays were overwritten with repetitions
 (rejected by the inner `remap` for permuted qubits), and the same crossed with the earlier / later
 checks (frequencies, option conflict, malformed additional Hamiltonian, early return).
 
@@ -295,11 +296,11 @@ def structured_extend():
     case([e(Xp, 0, {'X': 'a', 'Z': 'a'}), e(Xp, 1)])                               # noise clash
     case([e(Xp, 0, {'X': 'a', 'Z': 'b'}), e(Xp, 1, {'X': 'c', 'Z': 'b'})])
     case([e(Xp, 0, {'X': 'X_1', 'Z': 'b'}), e(Xp, 1)])                             # vs default
-    case([e(Xp, 0, {'Z': 'a'}), e(Xp, 1)])                                         # KeyError
+    case([e(Xp, 0, {'Z': 'a'}), e(Xp, 1)])                                         # missing key
     case([e(Xp, 0, {}), e(Xp, 1)])
-    case([e(Xp, 0, {'X': 'a', 'Z': 'a'}), e(Xp, 1, {'X': 'b'})])                   # KeyError first
+    case([e(Xp, 0, {'X': 'a', 'Z': 'a'}), e(Xp, 1, {'X': 'b'})])                   # missing key first
     case([e(Xp, 0, {'Z': 'a'}), e(Xp, 1)], cf=True)                                # omega first
-    case([e(Xp, 0, {'Z': 'a'}), e(Xp, 1)], add=5, addt='!')                        # KeyError first
+    case([e(Xp, 0, {'Z': 'a'}), e(Xp, 1)], add=5, addt='!')                        # missing key first
     case([e(Xp, 0, {'X': 'a', 'Z': 'a'}), e(Xp, 1)], add=5, addt='!')              # dup first
     case([e(Xp, 0, {'X': 'a', 'Z': 'a'}), e(Xp, 1)], add=[[np.eye(4), [1.], 'ZZ']],
          addt='3:a4x4:s1:=ZZ', cd=False)                                           # conflict first
